@@ -221,9 +221,10 @@ def audit_axioms(modules):
     rc, out = run(["lake", "env", "lean", path], cwd=LEAN, timeout=1800)
     res = {}
     # outputs:  'X' depends on axioms: [a, b]   |   'X' does not depend on any axioms
-    for m in re.finditer(r"'([^']+)' depends on axioms: \[([^\]]*)\]", out.replace("\n ", " ").replace("\n", " ")):
-        res[m.group(1)] = [a.strip() for a in m.group(2).split(",") if a.strip()]
-    for m in re.finditer(r"'([^']+)' does not depend on any axioms", out):
+    flat = out.replace("\n ", " ")
+    for m in re.finditer(r"^'(.+?)' depends on axioms: \[([^\]]*)\]", flat, re.M):
+        res[m.group(1)] = [a.strip() for a in m.group(2).replace("\n", " ").split(",") if a.strip()]
+    for m in re.finditer(r"^'(.+?)' does not depend on any axioms", flat, re.M):
         res[m.group(1)] = []
     missing = [n for n in names if n not in res]
     if rc != 0 or missing:
